@@ -547,7 +547,7 @@ class Prov:
             ck = rv["ck"]
             if "Unsize" in ck or "PointerCoercion" in ck or "PtrToPtr" in ck or "Transmute" in ck:
                 return inner
-            return ("cast", inner, rv["ty"])
+            return ("cast", inner, rv["ty"], rv.get("from"))
         if k == "bin":
             return ("bin", rv["op"], self.operand(rv["a"], strip), self.operand(rv["b"], strip))
         if k == "un":
